@@ -36,7 +36,7 @@ class Parser(Emitter):
             e.__traceback__ = None
 
         if isinstance(result, formulaserror.XLError):
-            error = str(result)
+            error = str(formulaserror.from_message(result))
             result = None
         return {'result': result, 'error': error}
 
